@@ -1,4 +1,5 @@
 """C01 — parsing a valid JSON text yields exactly the value the text denotes."""
+import os
 import random
 
 from vflib import core, build
@@ -201,8 +202,12 @@ def run(tier, seed):
     exe = bdir + "/jcdrv"
     chk = core.Check(PID, tier, seed)
     ndocs = 200000 if tier == "quick" else 6000000
+    rd = core.record_dir(PID) if tier == "thorough" else None
     sh = core.parallel(shard_fn, seed=seed, tier=tier, exe=exe, ndocs=ndocs)
     chk.absorb(sh)
+    if rd:
+        os.environ.pop("VF_RECORD_DIR", None)
+        core.memcheck_recorded(chk, build.build("plain"), rd)
     chk.rule = ("documents drawn value-first by gen/docs.py (random surface form: whitespace, escape forms, raw vs escaped, "
                 "surrogate combinations, number spellings incl. half-way decimals) and parsed in default mode (len incl. NUL), "
                 "strict mode, and default with len=-1; plus enumerated sub-spaces batched 4096 strings per document. "
